@@ -1297,7 +1297,9 @@ class DocutilsRenderer(RendererProtocol):
 
         for key, value in data.items():
             if not isinstance(value, str | int | float | date | datetime):
-                value = json.dumps(value)
+                # note, `default` handles values that YAML can produce,
+                # but JSON cannot represent (e.g. dates, sets or binary data)
+                value = json.dumps(value, default=str)
             value = str(value)
             body = nodes.paragraph()
             body.source, body.line = self.document["source"], line
